@@ -33,7 +33,7 @@ def run(ctx):
                         "the dispatch arms that call into_response / into_empty for `: custom(msg, query)` interfaces are covered by the L1 facts of C17/C03 streams (templates) — see DESIGN"]
     translate.regenerate()
     c.prove(ctx, ["Sylvia.Thm.C11", "Sylvia.Thm.Obl.Convertible"], THEOREMS)
-    exe = c.build_rt()
+    exe = c.build_rt(own="intoresp")
     rng = ctx.rng
     specs = [{"msgs": [], "attrs": [], "events": [], "data": None}]
     for k in KINDS:
